@@ -916,6 +916,9 @@ TRUST = ("Trusted: TLC; the harness's independent decoder (snap, serde_json, bla
          "(lstat/readlink/read); the verif_hooks interceptor sits above the local transport, so the local filesystem is taken as "
          "sequentially consistent. Toy-scale options (block sizes of a few bytes) drive the same code paths as production sizes.")
 
+# checks whose traces are also followed against the reference programs (sequential scenarios)
+PROTO_PROPS = {"C01", "C02", "C03", "C05", "C13", "C14"}
+
 MANIFEST_TEXT = {
     "C01": dict(ref="DESIGN.md 7 C01", note=TRUST,
                 text="Every generated (tree, settings) case is executed by the real backup()/restore(); the trace is validated by TLC: the "
@@ -1005,7 +1008,25 @@ MANIFEST_TEXT = {
 }
 NOT_APPLICABLE = {}
 
-MODELS = {}
+# Exhaustive model configs run by every check of the property (module, config, timeout s).
+# Conserve.tla = the reference programs of backup and delete/gc with kills, faults, mutation.
+_CRASH = ("MC_Conserve.tla", "MC_Conserve_crash.cfg", 900)
+_FAULT = ("MC_Conserve.tla", "MC_Conserve_fault.cfg", 900)
+_C01 = ("MC_Conserve.tla", "MC_Conserve_c01.cfg", 600)
+_CRASH_T = ("MC_Conserve.tla", "MC_Conserve_thorough.cfg", 3000)
+_FAULT_T = ("MC_Conserve.tla", "MC_Conserve_fault_thorough.cfg", 3000)
+MODELS = {
+    "C01": {"quick": [_C01], "thorough": [_C01, _CRASH_T]},
+    "C02": {"quick": [_CRASH], "thorough": [_CRASH_T]},
+    "C03": {"quick": [_CRASH], "thorough": [_CRASH_T]},
+    "C04": {"quick": [_FAULT], "thorough": [_FAULT_T]},
+    "C05": {"quick": [_CRASH, _FAULT], "thorough": [_CRASH_T, _FAULT_T]},
+    "C13": {"quick": [_CRASH], "thorough": [_CRASH_T, _FAULT_T]},
+    "C14": {"quick": [_CRASH], "thorough": [_CRASH_T]},
+    "C07": {"quick": [_CRASH], "thorough": [_CRASH_T]},
+    "C09": {"quick": [_CRASH], "thorough": [_CRASH]},
+    "C10": {"quick": [_FAULT], "thorough": [_FAULT]},
+}
 
 
 def run_check(prop, tier, seed, t0, keep=False):
@@ -1022,6 +1043,7 @@ def run_check(prop, tier, seed, t0, keep=False):
     else:
         scens = gen_out
     by_id = {s["id"]: s for s in scens}
+    mc = list(mc)
     for (module, cfg, tmo) in MODELS.get(prop, {}).get(tier, []):
         r = cvlib.run_tlc_model(module, cfg, timeout=tmo)
         mc.append((module, cfg, r))
@@ -1029,8 +1051,18 @@ def run_check(prop, tier, seed, t0, keep=False):
             print(r["out"][-3000:])
             raise cvlib.ToolError(f"model config {cfg} did not pass: the specification itself violates a monitor or timed out")
         print(f"[check {prop}] model {cfg}: {r['states']} distinct states, {r['transitions']} generated, {r['wall']:.0f}s")
-    res = cvlib.run_and_validate(scens, keep=keep)
+    proto = prop in PROTO_PROPS
+    res = cvlib.run_and_validate(scens, keep=keep, proto=proto)
     print(f"[check {prop}] {len(scens)} scenarios executed in {res['wall_h']:.1f}s, {res['events']} events validated by TLC in {res['wall_t']:.1f}s")
+    if proto:
+        print(f"[check {prop}] protocol conformance: {res['proto_calls']} real backup/delete calls followed against the reference programs of Conserve.tla in {res['wall_p']:.1f}s, {len(res['drift'])} drift records")
+        seen = set()
+        for d in res["drift"]:
+            key = (d[1], d[3])
+            if key not in seen and len(seen) < 5:
+                seen.add(key)
+                print(f"SPEC-DRIFT property={prop} scenario={d[0]} event={d[2]} {d[1]} {d[3]}: the real mutation sequence is not the reference program's; "
+                      "the exhaustive TLC results for Conserve.tla no longer transfer automatically (not a property violation)")
     nviol, lines, other = cvlib.judge(prop, res, by_id, tier, seed)
     for ln in lines:
         print(ln)
@@ -1051,10 +1083,13 @@ def run_check(prop, tier, seed, t0, keep=False):
         "model_configs": [{"config": cfg, "distinct_states": r["states"], "states_generated": r["transitions"], "wall_s": round(r["wall"], 1)} for _, cfg, r in mc],
         "other_monitors_fired": other,
     }
+    if proto:
+        cov["protocol_calls_followed"] = res["proto_calls"]
+        cov["protocol_drift_records"] = len(res["drift"])
     if states:
         cov["states"] = states
         cov["transitions"] = trans
-    cvlib.write_evidence(prop, tier, seed, spec["level"] if states else "exploration", cov, time.time() - t0, nviol,
+    cvlib.write_evidence(prop, tier, seed, spec["level"], cov, time.time() - t0, nviol,
                          ["harness decoder (snap, serde_json, blake2-rfc crates) is the trusted reader of the format",
                           "local filesystem transport only", "toy-scale options (block sizes of a few bytes) exercise the same code paths as production sizes"])
     return 1 if nviol else 0
